@@ -6,6 +6,7 @@
              element, "~" per NULL).  The Go handler decodes the array with the real code, decodes every expected
              element byte string with the real `DecodeType` itself, and prints "b<hex>" for an element that is equal to
              the scalar decoding of exactly those bytes — the property, literally, for every element type.
+             ("v<value>" = an element that must be this very value: the empty string of an empty text-like element.)
   arrayvals  element types whose Go decoding is trivial (bool, "char", name, int2/4/8, oid, text, varchar, bytea):
              full values, with a small local mirror of decodeScalar on the Lean side.
   arraycorr  corrupted arrays, placement mode with the MODEL's placement as the expected one (spec silent):
@@ -25,13 +26,15 @@ namespace Arr
 
 /-- the opaque element decoder: the bytes themselves (or the oid it was called with, if that is not the expected one) -/
 def tagDec (expectedOid : Nat) : Model.Arrays.Dec := fun bs oid =>
-  .ok (if oid == expectedOid then .str bs else .int oid)
+  .ok (if oid == expectedOid then .obj [(bs, .nil)] else .int oid)
 
+/-- "b<hex>" = the scalar decoding of these bytes; "v<canonical value>" = this very value (the empty string of an
+empty text-like element); "~" = nil -/
 def token : GoVal → String
   | .nil => "~"
-  | .str bs => "b" ++ hexOf bs
+  | .obj [(bs, _)] => "b" ++ hexOf bs
   | .int o => "o" ++ toString o
-  | _ => "?"
+  | v => "v" ++ v.show
 
 def showPlacement : M GoVal → String
   | .ok (.arr xs) => "[" ++ joinWith "," (xs.map token) ++ "]"
@@ -67,7 +70,7 @@ def showVal : M GoVal → String := showM GoVal.show
 def nullClass (a : PgArray) : String :=
   let n := a.elems.length
   let k := (a.elems.filter Option.isNone).length
-  if n == 0 then "nulls=empty" else if k == 0 then "nulls=none" else if k == n then "nulls=all" else "nulls=some"
+  if n == 0 then "nulls=empty" else if k == 0 then (if a.bitmap then "nulls=none+bitmap" else "nulls=none") else if k == n then "nulls=all" else "nulls=some"
 
 def hdrClass (a : PgArray) : String :=
   let s := a.elems.any fun e => match e with | some (.short _) => true | _ => false
